@@ -109,7 +109,7 @@ def lean_str(s):
 
 
 class FnTr:
-    STR_METHODS = {'strip': (0, 'str_strip'), 'lower': (0, 'str_lower'), 'replace': (2, 'str_replace'),
+    STR_METHODS = {'strip': (0, 'str_strip'), 'lower': (0, 'str_lower'), 'upper': (0, 'str_upper'), 'replace': (2, 'str_replace'),
                    'join': (1, 'str_join'), 'startswith': (1, 'str_startswith'), 'endswith': (1, 'str_endswith')}
 
     MUT_METHODS = {'add': (1, 'set_add'), 'append': (1, 'list_append'), 'remove': (1, 'list_remove'),
@@ -202,6 +202,7 @@ class FnTr:
         chains = [(x, self.opaque_chain(x)) for x in ast.walk(fn)]
         chains = [(x, c) for x, c in chains if c is not None and c[0] in params]
         if not chains:
+            self.find_external_parse(params)
             return
         inside = set()             # Name nodes that occur inside a chain
         for x, _ in chains:
@@ -232,6 +233,37 @@ class FnTr:
         for r in self.abs_report:
             r['replaces_parameters'] = sorted(roots) + dropped
         self.order = new + [x for x in self.order if x not in new and x not in {ident(q) for q in list(roots) + dropped}]
+
+    EXTERNAL_PARSERS = {'simplepath.parsePath'}     # calls of a dependency's parser: result becomes a parameter
+
+    def find_external_parse(self, params):
+        """`<parser>(p)` with `p` a parameter used nowhere else: the parameter `p` is replaced by `parsed_p`, the value
+        the parser returned (a list of `(command, [numbers…])` pairs for `simplepath.parsePath`).  Recorded in report.json."""
+        fn = self.fn
+        def fname_or_none(f):
+            try:
+                return self.fname(f)
+            except Unsupported:
+                return None
+        calls = [x for x in ast.walk(fn) if isinstance(x, ast.Call) and fname_or_none(x.func) in self.EXTERNAL_PARSERS
+                 and len(x.args) == 1 and not x.keywords and isinstance(x.args[0], ast.Name) and x.args[0].id in params]
+        if not calls:
+            return
+        inside = {id(c.args[0]) for c in calls}
+        outside = {n.id for n in ast.walk(fn) if isinstance(n, ast.Name) and id(n) not in inside}
+        new = list(map(ident, params))
+        for c in calls:
+            q = c.args[0].id
+            if q in outside:
+                continue
+            pname = ident('parsed_' + q)
+            self.abstracted[ast.dump(c)] = pname
+            new = [pname if n == ident(q) else n for n in new]
+            self.abs_report.append({'expression': ast.unparse(c), 'parameter': pname, 'line': c.lineno,
+                                    'replaces_parameters': [q]})
+        if self.abstracted:
+            self.abs_params = new
+            self.order = new + [x for x in self.order if x not in new and x not in {ident(r['replaces_parameters'][0]) for r in self.abs_report}]
 
     # ---------- expressions ----------
     def val(self, e):
@@ -509,6 +541,8 @@ class FnTr:
             return f"(Py.divmod_ R prec {A[0]} {A[1]})"
         if n == 'set' and not A:
             return "(Py.Val.tup [])"
+        if n == 'reversed' and len(A) == 1:
+            return f"(Py.reversed_ {A[0]})"
         if n == 'enumerate' and len(A) == 1:
             return f"(Py.enumerate_ {A[0]})"
         if n == 'len' and len(A) == 1:
@@ -1249,6 +1283,8 @@ FUNCTIONS = [
     ('plot_utils.py', 'position_scale'),
     ('plot_utils.py', 'points_near'),
     ('plot_utils.py', 'points_equal'),
+    ('plot_utils.py', 'pathdata_first_point'),   # simplepath.parsePath(path) becomes the parameter parsed_path
+    ('plot_utils.py', 'pathdata_last_point'),
     ('plot_utils.py', 'vInitial_VF_A_Dx'),
     ('plot_utils.py', 'vFinal_Vi_A_Dx'),
 ]
